@@ -315,7 +315,7 @@ class Sim:
             fut = loop.create_future()
             sim.note_attempt(idx)
 
-            def resolve(ok):
+            def resolve(ok, early_close=False):
                 if not ok:
                     fut.set_exception(ConnectionRefusedError(111, "refused"))
                     return None
@@ -323,6 +323,10 @@ class Sim:
                 tr = vws.RecTransport(sim.env)
                 proto.connection_made(tr)
                 c = Conn(sim, idx, kind, proto, tr)
+                if early_close:
+                    # the peer has closed the connection before the connect future's callbacks run
+                    # (_wrap_connection_future.on_connect_success then sees transport.is_closing())
+                    tr.closed = True
                 fut.set_result((tr, proto))
                 return c
             sim.pending = (idx, resolve)
@@ -429,7 +433,7 @@ class Sim:
             self.guard(c.finish_close, True)
         self.pump()
 
-    def ev_out(self, o, fatal):
+    def ev_out(self, o, fatal, variant=None):
         if self.pending is None:
             return
         if o in ("mret", "mraise") and not self.case.get("main"):
@@ -444,6 +448,14 @@ class Sim:
         if o == "refused":
             self.guard(resolve, False)
             self.pump()
+            return
+        if o == "hsfail" and variant == "early" and self.fw == "asyncio":
+            c = self.guard(resolve, True, True)
+            self.pump()
+            if c is not None:
+                self.conn = c
+                self.guard(c.drop, False)
+                self.pump()
             return
         c = self.guard(resolve, True)
         self.pump()
@@ -497,7 +509,7 @@ class Sim:
             elif k == "stop":
                 self.ev_stop()
             elif k == "out":
-                self.ev_out(ev[1], bool(ev[2]))
+                self.ev_out(ev[1], bool(ev[2]), ev[3] if len(ev) > 3 else None)
             elif k == "sess":
                 self.ev_sess(ev[1], bool(ev[2]) if len(ev) > 2 else False)
         tr = []
